@@ -351,6 +351,15 @@ def run(ck):
         for use in ("@db kq1", "@dw kq1", "@ds 2, kq1", "@assert kq1", " ld a, kq1", "@defl kq2, kq1 + 1\n@db kq2"):
             t = "%s\n@struct Sq\n f1 3\n@endstruct\n@defn kq0, 4\n@defl kq1, %s\n" % (use, body)
             cases.append((rng.choice(["z80", "sm83"]) if use.startswith(" ld") else rng.choice(asmk.ARCHES), t.encode("utf8"), "fragment:late-constant"))
+    # constants that mention an earlier constant more than once: the work must not double with every line (32 lines)
+    for depth in (8, 16, 32):
+        for body in ("s%d + s%d", "s%d ? s%d : s%d - s%d"):
+            defs = ["@defl s%d, %s" % (i, body.replace("%d", str(i - 1))) for i in range(1, depth + 1)]
+            for first in (True, False):
+                for use in ("@dw s%d & $ffff", "@if @isdef s%d\n@ds 1, ( s%d ) & 255\n@endif"):
+                    u = use.replace("%d", str(depth))
+                    t = "\n".join((["@defl s0, 1"] if first else []) + defs + [u] + ([] if first else ["@defl s0, 1"])) + "\n"
+                    cases.append((rng.choice(asmk.ARCHES), t.encode("utf8"), "shared-constants"))
     skipped = 0
     kept = []
     for arch, data, tag in cases:
@@ -389,7 +398,8 @@ def run(ck):
             suspects.append((arch, data, tag, a, c, bad))
     # a timeout / abort where the model runs out of fuel is unbounded expansion: outside the quantifier
     if suspects:
-        kc = [{"arch": a, "files": dict(EXTRA, **{"/w/main.asm": d})} for a, d, _, _, _, _ in suspects[:40]]
+        # (programs with shared constants are never given to the model: it evaluates a constant at every mention)
+        kc = [{"arch": a, "files": dict(EXTRA, **{"/w/main.asm": d if t != "shared-constants" else b"@db 1\n"})} for a, d, t, _, _, _ in suspects[:40]]
         _, mres, _ = asmk.run_full(harness, model, kc, case_timeout=20)
         for (arch, data, tag, a, c, bad), m in zip(suspects[:40], mres):
             if a.kind == "ABORT" and "timeout" in a.raw and m == "FUEL":
@@ -401,7 +411,9 @@ def run(ck):
                              {"mode": "asm", "arch": arch, "source_hex": data.hex(), "source": data.decode("utf8", "replace"),
                               "harness_case": c, "expected": "bytes or a diagnostic"})
     # ---- K: accept / reject of the model
-    sel = [i for i, (_, d, t) in enumerate(cases) if t != "mutation" or rng.random() < 0.4]
+    # (the model evaluates a constant anew at every mention, like the implementation before a6bc11e: the programs with
+    # shared constants are for the implementation only)
+    sel = [i for i, (_, d, t) in enumerate(cases) if t != "shared-constants" and (t != "mutation" or rng.random() < 0.4)]
     rng.shuffle(sel)
     sel = sel[: (12000 if thorough else 2500)]
     kc = []
